@@ -414,6 +414,52 @@ def run(ctx):
             r.check(len(mine) == 2, "compare/%s/skip-sites" % side, where(inc_b), "StartBody and EndRecord can be skipped on this side (%d sites)" % len(mine))
         r.check(True, "compare/analysed", where(inc_b), "%d skip sites" % len(skips))
 
+    with ctx.rule("C15.R10", "T5", "the structural validators compare attribute counts and item counts separately", floor=3) as r:
+        # incremental_compare steps over implicit body delimiters, so the shape of the two values is judged by the validators alone: per builder segment
+        # the number of attributes and the number of items. `@b {@a 2}` and `{@b @a 2}` differ exactly in which record an attribute belongs to: the
+        # totals agree (1+2 = 0+3), the components do not. A comparison of merged sizes accepts them as equal although they parse to different values
+        # and hash differently.
+        ve = ctx.saw(rc.fn(name="eq", self_adt="comparator::ValueValidator"))
+
+        def kinds_of(b_, op):
+            ks = set()
+            for x in b_.sources(op, stop_at_calls=False):
+                if x[0] == "call":
+                    nm = x[1].name or ""
+                    if nm == "attrs_len":
+                        ks.add("attrs")
+                    elif nm == "items_len":
+                        ks.add("items")
+                elif x[0] == "field":
+                    fl = x[1].fields
+                    if fl and fl[-1] == "attrs":
+                        ks.add("attrs")
+                    elif fl and fl[-1] in ("items", "items_count"):
+                        ks.add("items")
+            return ks
+        cmps = []
+        for i, j, p_, rv, line in ve.assigns():
+            if rv[0] == "bin" and rv[1] in ("Eq", "Ne"):
+                a, b_ = kinds_of(ve, rv[2]), kinds_of(ve, rv[3])
+                if a or b_:
+                    cmps.append((line, a, b_))
+        for c in ve.calls:
+            if c.name in ("eq", "ne") and len(c.args) == 2:
+                a, b_ = kinds_of(ve, c.args[0]), kinds_of(ve, c.args[1])
+                if a and b_ and "tuple(" in describe_operand(ve, c.args[0]):
+                    # a component-wise comparison of pairs keeps the two sizes apart
+                    cmps.append((c.line, {"attrs"}, {"attrs"}))
+                    cmps.append((c.line, {"items"}, {"items"}))
+        if not cmps:
+            raise AnchorMissing("ValueValidator::eq: no comparison of builder sizes found")
+        merged = [(line, a | b_) for line, a, b_ in cmps if len(a) > 1 or len(b_) > 1]
+        r.check(not merged, "ValueValidator::eq/sizes-not-merged", where(ve), "no comparison is made on a sum of the attribute count and the item count",
+                "a comparison at line %s is made on values that merge the attribute count and the item count: records that differ in where an attribute sits (`@b {@a 2}` / `{@b @a 2}`) have equal totals and compare equal although they are different values with different hashes" % (merged[0][0] if merged else "-"))
+        for k in ("attrs", "items"):
+            both = [line for line, a, b_ in cmps if a == {k} and b_ == {k}]
+            r.check(bool(both), "ValueValidator::eq/%s-compared" % k, where(ve), "the %s counts of the two sides' segments are compared with each other" % k,
+                    "the %s counts of corresponding builder segments are never compared with each other" % k)
+
     with ctx.rule("C15.R7", "T5", "the hasher's textual look-ahead stops at every character it tests and steps over string literals", floor=4) as r:
         il = ctx.saw(rc.fn(name="is_implicit_record"))
         prog = ctx.program(R)
